@@ -100,6 +100,9 @@ def showLayer : Layer → String
   | .ipv6ExtHeader => "Ipv6ExtHeader"
   | .ipv6FragHeader => "Ipv6FragHeader"
   | .ipAuthHeader => "IpAuthHeader"
+  | .ipv6HopByHopHeader => "Ipv6HopByHopHeader"
+  | .ipv6DestOptionsHeader => "Ipv6DestOptionsHeader"
+  | .ipv6RouteHeader => "Ipv6RouteHeader"
 
 def showLenErr (e : LenError) : String :=
   s!"len(req={e.requiredLen},len={e.len},src=Slice,layer={showLayer e.layer},off={e.layerStartOffset})"
@@ -160,6 +163,15 @@ def run (op : String) (args : List String) : Option String :=
   | "ext.from_slice", [first, h] => do
       let first ← argU8 first; let b ← argHex h
       pure (showFromSlice b (Exts.fromSlice first b))
+  | "ext.from_slice_lax", [first, h] => do
+      let first ← argU8 first; let b ← argHex h
+      match Exts.fromSliceLax first b with
+      | .ok (e, next, rest, err) =>
+        let es := match err with
+          | none => "none"
+          | some (er, layer) => s!"some({showSliceErr er},{showLayer layer})"
+        pure s!"({showExts e},next={next},rest={showWin (b.length - rest.length) rest.length},header_len={e.headerLen},err={es})"
+      | .error _ => pure "panic"
   -- write, then from_slice of (written ++ tail); `none` when write fails
   | "ext.roundtrip", [e, first, tail] => do
       let e ← parseExts e; let first ← argU8 first; let tail ← argHex tail
